@@ -17,7 +17,7 @@ RULE = ('for each header configuration (CRC types 0/1/2 on primary and payload, 
         'replicate flag, do-not-fragment / already-a-fragment inputs) the MTU is set to (non-payload size + k), k = 1..40 and '
         'beyond, and to sizes around the CBOR head boundaries 23/24, 255/256, 65535/65536 of payload length and offsets; '
         'payload lengths 0..300 plus 65530..65540 and 70000; both origins (locally built object handed to send_bundle; '
-        'received bytes routed "forward" over the MTU-limited route); security policy off or on. Non-trivial = a send whose '
+        'received bytes routed "forward" over the MTU-limited route); security policy off or on; one container sent twice (MTU-limited route, then a route on which it fits). Non-trivial = a send whose '
         'MTU is smaller than the unfragmented size; distinct = distinct (origin, bundle bytes, MTU).')
 ASSUMPTIONS = [
     'vf/oracles/bpv7.py decodes every output; tiling is decided on integer sets',
@@ -26,7 +26,7 @@ ASSUMPTIONS = [
     'because which security blocks each fragment must carry is not stated by the property',
 ]
 DECIDING = ['bp.app.fragment:Fragment._create', 'bp.agent:Agent.send_bundle', 'bp.agent:Agent._do_tx_step']
-REQUIRED_OBS = ['sends', 'fragmenting_sends', 'fragments_checked', 'unchanged_sends_checked', 'impossible_sends', 'unnumbered_sends']
+REQUIRED_OBS = ['sends', 'fragmenting_sends', 'fragments_checked', 'unchanged_sends_checked', 'impossible_sends', 'unnumbered_sends', 'resends_checked']
 
 NODE = 'dtn://me/'
 
@@ -106,6 +106,52 @@ def do_send(bundle, mtu, origin, security=False):
     res = sim.settle(60000)
     loop_errs = list(sim.world.callback_errors)
     return node.cl.datas(), err, loop_errs, res
+
+
+def check_resend(bundle, mtu, obs):
+    ''' One container sent twice (the pattern of bp.app.sand: reset the sender, choose another route, send again): first over the
+    MTU-limited route, then over a route on which it fits. The second request must hand the unchanged bundle to the CL.
+    :return: (list of (kind, text), detail)
+    '''
+    from vf.world.sim import Sim
+    from vf import bp_harness as bh
+    from vf.gen import bundles as gen
+    from bp.util import BundleContainer
+    from bp import config as bp_config
+    ref_outs, _e, _l, _r = do_send(bundle, None, 'local')
+    sim = Sim(0, 'eager')
+    node = bh.BpNode(sim, NODE, rx_routes=[(r'dtn://far/.*', 'forward')], tx_routes=[dict(pattern=r'dtn://far/.*', mtu=mtu)])
+    ctr = BundleContainer(gen.to_real(bundle, typed=False))
+    detail = dict(origin='local-resend', mtu=mtu, security=False, bundle=bpv7.encode(bundle).hex()[:600])
+    problems = []
+    try:
+        node.send(ctr)
+    except Exception as exc:  # pylint: disable=broad-except
+        detail['first_send_raised'] = type(exc).__name__
+    sim.settle(60000)
+    first = len(node.cl.datas())
+    # reset state, as the repository's own multi-interface sender does between its sends of one container
+    ctr.sender = None
+    ctr.route = bp_config.TxRouteItem(eid_pattern=None, next_nodeid='dtn://next/', cl_type='fake', raw_config={'route': 'second'})
+    err = None
+    try:
+        node.agent.send_bundle(ctr)
+    except Exception as exc:  # pylint: disable=broad-except
+        err = exc
+    res = sim.settle(60000)
+    outs = node.cl.datas()[first:]
+    detail['outputs'] = [len(item) for item in outs]
+    detail['first_outputs'] = first
+    obs['resends_checked'] = obs.get('resends_checked', 0) + 1
+    if res != 'quiescent' or len(ref_outs) != 1:
+        return [('budget', 'resend scenario not decidable: %s, %d reference outputs' % (res, len(ref_outs)))], detail
+    if len(outs) != 1:
+        problems.append(('unchanged', 'second send of one container over a route on which it fits (after a first send of %d outputs over MTU %s) '
+                         'handed %d outputs to the CL%s' % (first, mtu, len(outs), ', the request raised %s' % type(err).__name__ if err else ' and raised nothing')))
+    elif outs[0] != ref_outs[0]:
+        problems.append(('unchanged', 'second send of one container over a route on which it fits differs from the no-MTU send at offset %d'
+                         % _first_diff(outs[0], ref_outs[0])))
+    return problems, detail
 
 
 def _enable_mac0(node):
@@ -311,6 +357,14 @@ def run_case(case):
             one(make_bundle(pri_crc, pay_crc, exts, 200, flags=bpv7.FLAG_NO_FRAGMENT, seq=901), 120, origin)
             one(make_bundle(pri_crc, pay_crc, exts, 200, frag=(10, 500), seq=902), 120, origin)
             one(make_bundle(pri_crc, pay_crc, exts, 50, seq=903), None, origin)
+        # one container sent a second time over a route on which it fits
+        for plen in (40, 300):
+            bundle = make_bundle(pri_crc, pay_crc, exts, plen, seq=plen + 7000)
+            full = len(bpv7.encode(bundle))
+            for mtu in (full - plen + 12, full - 1, full + 5):
+                problems, detail = check_resend(bundle, mtu, obs)
+                evaluations += 1
+                _collect(problems, detail, violations)
         if len(exts) >= 1:
             # locally built bundles whose extension blocks carry no number yet, with and without a security block added on the way
             for plen in (60, 200):
